@@ -265,7 +265,19 @@ pub fn gen_call(f: &dyn vrl::compiler::Function, rng: &mut Rng) -> Call {
         let kind = if wrong || allowed.is_empty() { *rng.pick(&[K_BYTES, K_INTEGER, K_FLOAT, K_BOOLEAN, K_OBJECT, K_ARRAY, K_NULL]) } else { *rng.pick(&allowed) };
         // regex values cannot live in an event: always literal
         let literal = kind == K_REGEX || rng.chance(3, 5);
-        let text = if literal {
+        let text = if (kind == K_ARRAY || kind == K_OBJECT) && rng.chance(1, 8) {
+            // a collection whose ELEMENT kind is known but whose length / keys are not
+            // (`split` gives an array of strings, `parse_key_value` an object of strings)
+            let key = format!("p{i}");
+            shape.push(format!("{}:T{}", p.keyword, kind));
+            if kind == K_ARRAY {
+                event.insert(key.clone().into(), Value::from(*rng.pick(&["a,b", "", "x", "1,2,3"])));
+                format!("split(string!(.{key}), \",\")")
+            } else {
+                event.insert(key.clone().into(), Value::from(*rng.pick(&["a=b c=d", "k=v"])));
+                format!("parse_key_value!(string!(.{key}))")
+            }
+        } else if literal {
             shape.push(format!("{}:L{}", p.keyword, kind));
             (*rng.pick(literal_pool(kind))).to_string()
         } else {
